@@ -766,7 +766,7 @@ with ts_loop (fuel : nat) (t : st) (dq : bool) (tstart : nat) (parts : list etok
       let tok :=
         match parts1 with
         | [ETok k v i] => ETok k v i                        (* just a plain string *)
-        | _ => ETemplate dq parts1 tstart (pos t1)
+        | _ => ETemplate dq parts1 tstart (pos t1 - 1)           (* fix C17/0015: stops before the closing quote *)
         end in
       Ok (ignore t1, tok :: rexpr)
     else ts_loop f t1 dq tstart parts rexpr
@@ -858,11 +858,13 @@ Fixpoint line_statement (fuel : nat) (t : st) (name : str) (rexpr : list etok)
       | None =>
           match wc_end L_pct_rbrace (rest (pos t1)) with
           | Some (w, m) =>
+              (* fix C17/0014: the statement stops where the closing delimiter starts *)
               let t2 := set_both t1 (pos t1 + m) in
-              Ok (t2, LTag (lstart t2) (pos t2) name (rev rexpr), Some w)
+              Ok (t2, LTag (lstart t2) (pos t1) name (rev rexpr), Some w)
           | None =>
-              (* self.error(f"unknown symbol '{self.next()}'"): next() runs first *)
-              match peek_at (pos t1) with Some _ => syn (S (pos t1)) | None => syn (pos t1) end
+              (* self.error(f"unknown symbol '{self.next()}'"): next() moves pos only and the
+                 error token starts at self.start (fix C17/0012) *)
+              syn (pos t1)
           end
       end
   end.
@@ -902,7 +904,7 @@ Fixpoint liquid_block_comment (fuel : nat) (t : st) (depth : nat) : res (st * lt
       | Some m =>
           let t1 := set_pos t (pos t + m) in
           liquid_block_comment f (set_pos t1 (pos t1 + line_term (rest (pos t1)))) depth
-      | None => syn (pos t)            (* "unclosed comment block detected" *)
+      | None => syn (start t)          (* "unclosed comment block detected", at the comment's text (fix C17/0012) *)
       end
   end.
 
@@ -925,7 +927,7 @@ Fixpoint liquid_tag (fuel : nat) (t : st) (w0 : wc) (stmts : list ltok) (wss : l
       let n := tag_name_len r in
       if negb (n =? 0) then
         let name := firstn n r in
-        let t2 := set_lstart (set_both t1 (pos t1 + n)) (start t1) in
+        let t2 := set_in_range (set_lstart (set_both t1 (pos t1 + n)) (start t1)) false in
         if str_eqb name L_comment then
           do t3 <- ignore_ws t2 ;;
           do y <- liquid_block_comment f t3 1 ;;
@@ -945,8 +947,9 @@ Fixpoint liquid_tag (fuel : nat) (t : st) (w0 : wc) (stmts : list ltok) (wss : l
             let t3 := if peek_is t2 10 then set_both t2 (S (pos t2)) else t2 in
             liquid_tag f t3 w0 (tok :: stmts) wss1
         | None =>
-            (* self.next(); self.error("expected a tag name") *)
-            match peek_at (pos t1) with Some _ => syn (S (pos t1)) | None => syn (pos t1) end
+            (* self.next(); self.error("expected a tag name"): the error token starts at
+               self.start (fix C17/0012) *)
+            syn (pos t1)
         end
     end
   end.
@@ -972,7 +975,7 @@ Fixpoint block_comment (fuel : nat) (t : st) (w0 : wc) (cdepth rdepth : nat) : r
   | O => OutOfFuel
   | S f =>
     match find_first chunk_tail (rest (pos t)) with
-    | None => syn (pos t)                                   (* "unclosed comment block detected" *)
+    | None => syn (start t)                                 (* "unclosed comment block detected", at the comment's text (fix C17/0012) *)
     | Some (k, (ce, w1, m)) =>
         let t1 := set_pos t (pos t + k + m) in
         match ce with
@@ -1013,12 +1016,13 @@ Fixpoint lex_loop (fuel : nat) (t : st) (acc : list mtok) : res (list mtok) :=
         lex_loop f t1 (MComment CInline (start t) (p + n) w0 w1
                          (sub (p + toff) (p + toff + tlen)) [] :: acc)
     | Some (MkOutput w0 n) =>
-        let t1 := set_both (set_mstart t (start t)) (p + n) in
+        (* fix C17/0011: in_range is cleared where a markup begins *)
+        let t1 := set_in_range (set_both (set_mstart t (start t)) (p + n)) false in
         do x <- expression_until f L_rbrace2 t1 ;;
         let '(t2, w1, expr) := x in
         lex_loop f (ignore t2) (MOutput (mstart t2) (pos t2) w0 w1 expr :: acc)
     | Some (MkTag w0 noff nlen) =>
-        let t1 := set_both (set_mstart t (start t)) (p + noff + nlen) in
+        let t1 := set_in_range (set_both (set_mstart t (start t)) (p + noff + nlen)) false in
         let name := sub (p + noff) (p + noff + nlen) in
         if str_eqb name L_liquid then
           do x <- liquid_tag f t1 w0 [] [] ;;
